@@ -437,6 +437,9 @@ def heredoc_truncations():
         last = ends[-1]
         for p in range(len(first), last):
             out.append(text[:p])
+        # the input ends on the announcing line itself: inside a trailing comment, after a blank, after a line continuation
+        for tail in (" #c", " # c\\", " #", "\t#\u00e9 d", " ", " \\\n", " \\\n#c", "; #c", " # `", " #c\r"):
+            out.append(first + tail)
     return out
 
 
